@@ -97,6 +97,17 @@ def build(obj_id):
         m = HistParametricModel(5, (0.0, 5.0), _density, [2.4, 1.1])
         m.add_error(0.02, name="ma")
         return m
+    if obj_id == "m_hist_edges":       # non-equidistant bins
+        m = HistParametricModel(3, (0.0, 5.0), _density, [2.4, 1.1], bin_edges=[0.0, 0.5, 2.0, 5.0], bin_evaluation="numerical")
+        m.add_error(0.01, name="ma")
+        return m
+    if obj_id in ("f_histedges_plain", "f_histedges_fit"):
+        from kafe2 import HistFit
+        f = HistFit(HistContainer(bin_edges=[0.0, 0.5, 2.0, 3.0, 5.0], fill_data=fl.H0 + [5.5]), _density)
+        f.limit_parameter("sigma", 0, 3.0)      # a bound of exactly 0
+        if obj_id.endswith("fit"):
+            f.do_fit()
+        return f
     if obj_id == "m_hist_nodensity":
         m = HistParametricModel(5, (0.0, 5.0), _density, [2.4, 1.1], density=False)
         return m
@@ -134,7 +145,8 @@ def build(obj_id):
         fl.add_constraint(f, ftype, "c1")
         fl.add_constraint(f, ftype, "c4")
         names = fl.PARAMS[ftype]
-        f.limit_parameter(names[0], fl.PVALS[ftype][names[0]][0] - 3.0, fl.PVALS[ftype][names[0]][0] + 3.0)
+        # the lower bound of the xy / indexed fits is exactly 0
+        f.limit_parameter(names[0], 0 if ftype in ("xy", "indexed") else fl.PVALS[ftype][names[0]][0] - 3.0, fl.PVALS[ftype][names[0]][0] + 3.0)
         if variant in ("fixed", "fixedfit"):
             f.fix_parameter(names[1], fl.PVALS[ftype][names[1]][1])
         if variant in ("fit", "fixedfit", "asym"):
@@ -148,7 +160,7 @@ def build(obj_id):
 OBJECTS = ["c_indexed", "c_xy", "c_hist", "c_hist_manual", "c_hist_edges", "c_unbinned", "m_indexed", "m_xy", "m_hist", "m_hist_nodensity", "f_hist_nodensity",
            "k_simple", "k_simple_rel", "k_matrix", "k_matrix_rel_cor",
            "f_xy_plain", "f_xy_fit", "f_xy_fixedfit", "f_xy_asym", "f_indexed_fixed", "f_indexed_fit", "f_hist_fit", "f_hist_plain", "f_unbinned_fit",
-           "f_custom_plain", "f_custom_fit", "f_custom_fixedfit"]
+           "f_custom_plain", "f_custom_fit", "f_custom_fixedfit", "m_hist_edges", "f_histedges_plain", "f_histedges_fit"]
 
 
 def family(obj_id):
@@ -212,7 +224,7 @@ def project(obj, obj_id):
         if ftype == "custom":
             p.update(parameter_names=list(obj.parameter_names), parameter_values=_arr(obj.parameter_values),
                      fixed=sorted((k, float(v)) for k, v in obj._fitter.fixed_parameters.items()),
-                     limited=sorted((k, tuple(float(x) for x in v)) for k, v in obj._fitter.limited_parameters.items()),
+                     limited=sorted((k, tuple(None if x is None else float(x) for x in v)) for k, v in obj._fitter.limited_parameters.items()),
                      cost=float(obj.cost_function_value), did_fit=bool(obj.did_fit),
                      constraint_cost=float(sum(c.cost(obj.parameter_values) for c in obj.parameter_constraints)),
                      parameter_errors=_arr(obj.parameter_errors) if obj.did_fit else None,
@@ -222,7 +234,7 @@ def project(obj, obj_id):
         p["parameter_names"] = list(obj.parameter_names)
         p["parameter_values"] = _arr(obj.parameter_values)
         p["fixed"] = sorted((k, float(v)) for k, v in obj._fitter.fixed_parameters.items())
-        p["limited"] = sorted((k, tuple(float(x) for x in v)) for k, v in obj._fitter.limited_parameters.items())
+        p["limited"] = sorted((k, tuple(None if x is None else float(x) for x in v)) for k, v in obj._fitter.limited_parameters.items())
         p["cost"] = float(obj.cost_function_value)
         p["ndf"] = int(obj.ndf)
         p["did_fit"] = bool(obj.did_fit)
